@@ -73,6 +73,9 @@ type _LexerStateMachine struct {
 	// pending is true while input has been consumed that was not yet accepted
 	// or discarded.
 	pending bool
+
+	// started is true if input has been consumed since the last rule matched.
+	started bool
 }
 
 func (l *_LexerStateMachine) PushRune(r rune) int {
@@ -119,6 +122,7 @@ func (l *_LexerStateMachine) PushRune(r rune) int {
 			case r >= rune(mode[k]) && r <= rune(mode[k+1]):
 				l.state = int(mode[k+2])
 				l.pending = true
+				l.started = true
 				return _lexerConsume
 			case r < rune(mode[k]):
 				e = j
@@ -132,6 +136,13 @@ func (l *_LexerStateMachine) PushRune(r rune) int {
 
 	// Move 'i' to the beginning of the actions section.
 	i += gotoN * 3
+
+	// A rule that can match the empty string (e.g. [a-z]*) only matches once
+	// something has been consumed. Acting on an empty match would not advance
+	// the input and the same rule would match again, forever.
+	if !l.started {
+		i = end
+	}
 
 	for ; i < end; i += 2 {
 		switch mode[i] {
@@ -149,13 +160,16 @@ func (l *_LexerStateMachine) PushRune(r rune) int {
 			l.token = int(mode[i+1])
 			l.state = 0
 			l.pending = false
+			l.started = false
 			return _lexerAccept
 		case 4: // Discard
 			l.state = 0
 			l.pending = false
+			l.started = false
 			return _lexerDiscard
 		case 5: // Accum
 			l.state = 0
+			l.started = false
 			return _lexerTryAgain
 		}
 	}
@@ -174,6 +188,7 @@ func (l *_LexerStateMachine) Reset() {
 	l.mode = nil
 	l.state = 0
 	l.pending = false
+	l.started = false
 }
 
 func (l *_LexerStateMachine) Token() int {
